@@ -180,6 +180,23 @@ def run(ctx):
                 sp, cwd = rng.choice([("r", base), (".", root), (root, base)])
                 jobs.append(dict(base=base, root=root, g=g, realdir=realdir, dfs=dfs, sp=sp, cwd=cwd, mx=mx))
 
+    # a followed link (at a level below maxdepth) to a directory whose REAL path lies deeper than the window - inside the tree or
+    # outside it: the linked directory's own entries are one level below the link, hence inside the window, and must be listed
+    for i in range(3 if ctx.tier == "quick" else 18):
+        base = os.path.join(ctx.scratch, "v%d" % i)
+        root = os.path.join(base, "r")
+        os.makedirs(os.path.join(root, "a", "b", "c"))
+        os.makedirs(os.path.join(base, "outside", "x", "y", "z"))
+        for nm in ("r/plain.txt", "r/a/b/c/inner.txt", "outside/x/y/z/outer.txt"):
+            open(os.path.join(base, nm), "w").close()
+        os.symlink("a/b/c" if i % 2 else os.path.join(root, "a", "b", "c"), os.path.join(root, "in"))
+        os.symlink(os.path.join(base, "outside", "x", "y", "z") if i % 3 else "../outside/x/y/z", os.path.join(root, "out"))
+        g, realdir = graph_of(root)
+        for dfs in (False, True):
+            sp, cwd = rng.choice([("r", base), (".", root), (root, base)])
+            jobs.append(dict(base=base, root=root, g=g, realdir=realdir, dfs=dfs, sp=sp, cwd=cwd, mx=2,
+                             must_have=[(os.path.realpath(os.path.join(root, "a", "b", "c")), "inner.txt"), (os.path.realpath(os.path.join(base, "outside", "x", "y", "z")), "outer.txt")]))
+
     def one(j):
         opt = " symlinks" + (" mindepth %d" % j["mn"] if j.get("mn") else "") + (" maxdepth %d" % j["mx"] if j["mx"] else "") + (" dfs" if j["dfs"] else "")
         q = "path from %s%s into list" % (j["sp"], opt)
@@ -250,7 +267,7 @@ def run(ctx):
             need = [(os.path.realpath(os.path.dirname(os.path.join(j["cwd"], p))), os.path.basename(p)) for p in pw]
             c = collections.Counter(keys)
             dup = [k for k, v in c.items() if v > 1][:5]
-            missing = sorted(set(need) - set(keys))[:5]
+            missing = sorted((set(need) | set(j.get("must_have", []))) - set(keys))[:5]
             if dup or missing:
                 ctx.violation("impl-violates-spec", "with `symlinks` and the window mindepth %d maxdepth %d: entries the plain search lists inside the window are missing (%s) or an entry is listed twice (%s)" % (j.get("mn", 0), j["mx"], missing, dup),
                               input=case, observed=rows[:40], expected=pw[:40])
